@@ -29,6 +29,8 @@ CONSTANTS
     KeepHistory,\* TRUE: ops/obs hold the whole behaviour; FALSE: only the last op (long scripted runs)
     UseScript,  \* FALSE: explore freely over the alphabets; TRUE: execute exactly the ops of Script
     Script,     \* the op sequence of a scripted run (evaluated once, in Init)
+    CovA, CovB, \* C14 models: instance 2 is fed CovA * x + CovB whenever instance 1 is fed x (CovA = 0: not such a model;
+                \* CovA = -1: instance 1 is a Minimum fed x and instance 2 a Maximum fed -x)
     FreeIds,    \* the instances that receive freely chosen inputs (the others only act in continuations)
     Conts       \* continuations: op sequences that may be started from any freely explored state and then run
                 \* to their end without interruption (reset / checkpoint / clone followed by a fixed continuation)
@@ -48,6 +50,8 @@ Fresh(c) ==
      impl |-> ImplInit(c.kind, ParamsOf(c)),
      t |-> 0, taint |-> FALSE,
      age |-> 0,          \* calls since a non-finite value first entered (0 = untainted)
+     parts |-> PartsInit(c.kind, ParamsOf(c)),    \* C15: the composite as a composition of its public parts
+     po |-> <<>>,        \* ... and its outputs at the last step
      ro |-> <<>>,        \* reference fields of the last step
      io |-> <<>>]        \* implementation-model outputs of the last step
 
@@ -91,8 +95,9 @@ Feed(i, in) ==
             /\ Log(InToOp(i, in), [t |-> I.t + 1, taint |-> TRUE, e |-> Eff(I.kind, in)])
        ELSE LET r == RefStep(I.kind, I.p, I.ref, in)
                 m == ImplStep(I.kind, I.p, I.impl, in)
+                q == PartsStep(I.kind, I.p, I.parts, in)
             IN /\ inst' = [inst EXCEPT ![i].ref = r.s, ![i].impl = m.s, ![i].t = I.t + 1,
-                                       ![i].ro = r.f, ![i].io = m.o]
+                                       ![i].ro = r.f, ![i].io = m.o, ![i].parts = q.s, ![i].po = q.v]
                /\ Log(InToOp(i, in), [t |-> I.t + 1, taint |-> FALSE, f |-> r.f, den |-> r.den,
                                       dend |-> r.dend, deg |-> r.deg, lo |-> r.lo, hi |-> r.hi,
                                       ts |-> r.ts, e |-> Eff(I.kind, in)])
@@ -122,6 +127,7 @@ Reset(i) ==
                             \* the transcribed reset; where a poisoned numeric state cannot be modelled the
                             \* code's field-by-field zeroing is what is transcribed anyway
                             ![i].impl = ImplReset(I.kind, I.impl),
+                            ![i].parts = PartsInit(I.kind, I.p), ![i].po = <<>>,
                             ![i].t = 0, ![i].taint = FALSE, ![i].age = 0, ![i].ro = <<>>, ![i].io = <<>>]
     /\ Log([op |-> "reset", i |-> i], NoObs)
     /\ UNCHANGED blobs
@@ -242,6 +248,28 @@ EmaConvex ==
     \A i \in Ids : (Present(i) /\ inst[i].kind = "EMA" /\ ~inst[i].taint /\ ~inst[i].ref.e.new) =>
         LET v == inst[i].ref.e.v  lo == RI(inst[i].ref.lo)  hi == RI(inst[i].ref.hi) IN
         (CmpOk(lo, v) /\ CmpOk(v, hi)) => (RLeq(lo, v) /\ RLeq(v, hi))
+
+\* C15 on the reference: the documented formula of a composite = the composition of its public parts
+PartsAgree ==
+    \A i \in Ids : (Present(i) /\ ~inst[i].taint /\ inst[i].kind \in Composites /\ inst[i].ro # <<>>) =>
+        /\ Len(inst[i].po) = Len(inst[i].ro)
+        /\ \A k \in 1..Len(inst[i].ro) : FieldOk(inst[i].ro[k], inst[i].po[k])
+
+\* C14 on the reference: outputs are covariant with the price unit as their dimension says.  Instances 1 and 2 have the
+\* same configuration; 2 is fed CovA * x + CovB (all price fields of a bar; volume untouched) whenever 1 is fed x.
+Moved(r, dim) == CASE dim = "level"  -> RAdd(RScale(CovA, r), RI(CovB))
+                   [] dim = "spread" -> RScale(CovA, r)
+                   [] dim = "var"    -> RScale(CovA * CovA, r)
+                   [] OTHER          -> r
+Covariant ==
+    (CovA > 0 /\ Present(1) /\ Present(2) /\ inst[1].t = inst[2].t /\ inst[1].ro # <<>> /\ ~inst[1].taint /\ ~inst[2].taint) =>
+        \A k \in 1..Len(inst[1].ro) :
+            LET r1 == inst[1].ro[k]  r2 == inst[2].ro[k] IN
+            (IsVal(r1.r) /\ IsVal(r2.r) /\ IsVal(Moved(r1.r, r1.dim))) => r2.r = Moved(r1.r, r1.dim)
+\* Maximum(x) = -Minimum(-x)
+MinMaxDual ==
+    (CovA = -1 /\ Present(1) /\ Present(2) /\ inst[1].t = inst[2].t /\ inst[1].ro # <<>>) =>
+        inst[2].ro[1].r = RNeg(inst[1].ro[1].r)
 
 \* C09 on the reference: dispersion >= 0, histogram = line - signal, ordered bands for m >= 0
 NonNeg ==
